@@ -272,6 +272,17 @@ def _get_condition_function(outcome_index, measurement_value, negate=False):
             qubit_outcome = 0
         else:
             two_mode_outcomes = [(outcomes[outcome_index], outcomes[outcome_index + 1])]
+
+            if list(two_mode_outcomes[0]) not in (
+                _zero_bosonic_qubit_state,
+                _one_bosonic_qubit_state,
+            ):
+                # NOTE: A branch outside of the dual-rail code space (which occurs with
+                # a tiny probability, e.g., after a KLM gate) is discarded by the
+                # postselection to the code space, hence the conditioned instruction
+                # is simply not applied instead of raising an error.
+                return False
+
             qubit_outcome = get_bosonic_qubit_samples(two_mode_outcomes)[0][0]
 
         return (qubit_outcome == measurement_value) != negate
